@@ -13,6 +13,13 @@ import GocoinV.Proofs.C12Compose
 import GocoinV.Proofs.C12SortRun
 import GocoinV.Proofs.C12Chain
 import GocoinV.Proofs.C12RejAdm
+import GocoinV.Proofs.C12Example
+import GocoinV.Proofs.C12Resync
+import GocoinV.Proofs.C12PanicFlags
+import GocoinV.Proofs.C12PanicRbf
+import GocoinV.Proofs.C12PanicSort
+import GocoinV.Proofs.C12PanicUndo
+import GocoinV.Proofs.C12Wrap
 namespace GocoinV.Props.C12
 open GocoinV.Mempool
 
@@ -338,6 +345,80 @@ theorem fee_exact (K : Keys) (ν : OutPoint → Nat) (s : State) (h : PoolInv K 
   obtain ⟨h1, h2⟩ := h.fee b t hb
   omega
 
+-- OPEN: coinbase maturity of the template. `BlockOK` has no maturity rule and the model's blocks carry no coinbase (coinbase
+-- coins exist only in the initial set `u0`, with their flag and height). The 4th `fix:` commit (BlockUndone →
+-- removeUnspendableCoinbaseSpends) is modelled (`unspendableAt`, `unspendableKeys`, `blockUndoneAt`) and every invariant
+-- theorem above is re-proved for it, but the statement it is there for,
+--   ∀ pooled t in `step K s (.undo h mf)` (alive), unspendableAt (step K s (.undo h mf)) h t = false
+-- (no pooled transaction spends a coinbase that a block of height h cannot spend), and its extension to all histories
+-- (processTx's CB_INMATURE check + `tip` monotone between undos) are NOT proved: tested by the harness only
+-- (corpus:coinbase-undo, gen:just-matured-coinbase + op:undo-bare, template validated by the node at every state).
+
+/-- MAP-ITERATION ORDER IS AN INPUT. The Go code walks maps in two places whose order shows in the state (the batch of
+    REPLACED records entering the reject ring; ties of sort.Slice in GetSortedMempoolSlow). The oracle adopts the observed
+    order with two edits that are NOT `step`s: `ringorder` (the occupied ring slots get a permutation of their content,
+    zeroed slots stay) and `setorder` (the non-dirty sorted list becomes a parents-first permutation of the pool keys, ranks
+    as after a rebuild, ghost flag as in reindexEverything). Both edits preserve every carried invariant: `Full` (structural
+    invariant ∧ chain side ∧ PoolInv when alive), `RejInv`, and the sorted-list invariant `SortInvP`. -/
+theorem resync_step_inv (K : Keys) (W : Tx → Prop) (rank : TxId → Nat) (u0 : UT) (ν : OutPoint → Nat)
+    (U : Univ2 K W rank u0 ν) (s s' : State) (ks : List Nat)
+    (h : ringorder s ks = some s' ∨ setorder K s ks = some s')
+    (f : Full K W u0 ν s) (r : RejInv K s) (q : SortInvP K s) :
+    Full K W u0 ν s' ∧ RejInv K s' ∧ SortInvP K s' := by
+  rcases h with h | h
+  · exact ⟨ringorder_full h f, ringorder_rejInv h r, ringorder_sort h q⟩
+  · exact ⟨setorder_full h f, setorder_rejInv h r, setorder_sort U h f.good⟩
+
+/-- … hence the three invariants hold along every trajectory of operations INTERLEAVED with resync edits (`rrun` over
+    `Move` = op | ring ks | sort ks, what the oracle really executes), provided each operation is admissible in the state it
+    is applied to (`RAdm`: its transactions are in `W`, `AdmOp`, `UndoOK` — for plain runs these are derived from `ValidRun`
+    by `admRun_genesis` / `undoOK_of_full`; for resynced trajectories they are hypotheses). A trajectory without edits is a
+    `run` (`rrun_ops`). -/
+theorem resync_run_inv (K : Keys) (W : Tx → Prop) (rank : TxId → Nat) (u0 : UT) (ν : OutPoint → Nat)
+    (U : Univ2 K W rank u0 ν) (ms : List Move) (s : State) (ha : RAdm K W u0 ν s ms)
+    (f : Full K W u0 ν s) (r : RejInv K s) (q : SortInvP K s) :
+    Full K W u0 ν (rrun K s ms) ∧ RejInv K (rrun K s ms) ∧ SortInvP K (rrun K s ms) :=
+  rrun_inv U ms s ha f r q
+
+/-- PANIC BRANCHES PROVED UNREACHABLE (beyond the reject-related ones of `reject_index_inv`). In a state satisfying the
+    carried invariants:
+    (1) `mined()` (minedFlags: `IIdx` = -1, MemInputs nil) does not raise the flag, for a pooled record, under PGood;
+    (2) `unmined()` (unminedFlags: `IIdx` = -1) does not, under the structural invariant InvS alone;
+    (3) the input loop of processTx never exits with the nil-dereference code R_PANIC (rbfStep: SpentOutputs names a key
+        that is not pooled; a descendant from GetAllChildren that is not pooled), under InvS;
+    (4) AddToSort's `parent == nil` branch is not taken when every flagged parent of the new record is pooled (what
+        `accept_pre` establishes at the call site in processTx: `accept_add_panicked` in Proofs/C12PanicSort), the
+        fall-through of fixIndex (`FixFall`, the latent nil dereference after ~800 000 consecutive head insertions)
+        being excluded by hypothesis.
+    NOT proved (they remain covered only by the hypothesis `alive`): BlockUndone's os.Exit(1) for a whole block — one
+    iteration is `undoneStep_no_exit` in Proofs/C12PanicUndo, under hypotheses `BlockValid` does not give (inputs restored
+    or created earlier in the block, no double spend inside the block, Σ outputs ≤ Σ inputs); Delete's recursion fuel
+    (delWithChildren at fuel 0); `FixFall`. -/
+theorem panic_branches_unreachable (K : Keys) (W : Tx → Prop) (rank : TxId → Nat) (u0 : UT) (ν : OutPoint → Nat)
+    (U : Univ2 K W rank u0 ν) (s : State) :
+    (∀ t, ChainOK u0 ν s → PGood K W u0 ν s → s.pool.get? (K.bidx t.tx.id) = some t →
+        (minedFlags K s t).panicked = s.panicked) ∧
+    (InvS K s → ∀ t, (unminedFlags K s t).panicked = s.panicked) ∧
+    (InvS K s → ∀ (fl : Flags) (ins : List TxIn) (a : Acc) (e : Exit),
+        ins.foldlM (inputStep K s fl) a = .error e → e.code ≠ R_PANIC) ∧
+    (∀ b t, (∀ p ∈ memParents K t, (s.pool.get? p).isSome = true) →
+        ¬ FixFall (insState s b (insJ K s t)) (s.sorted.take (insJ K s t)).getLast? (s.sorted.drop (insJ K s t)).head? →
+        (addToSort K s b t).panicked = s.panicked) :=
+  ⟨fun t hc h hin => minedFlags_panicked_good U t s hc h hin,
+   fun h t => (unminedFlags_panicked h t).1,
+   fun h fl ins a e he => inputs_no_panic h fl ins a e he,
+   fun b t hpar hfix => addToSort_panicked K s b t hpar hfix⟩
+
+/-- THE FEE-RATE PRODUCTS. The model computes `4000*fee < weight*minFee`, `totfees*vsize ≥ fee*totvsize`, isFirstTxBetter
+    (`better`) and the package comparison of GetSortedMempoolRBF in ℕ; the Go code in uint64. A product of a factor below
+    2^44 (fees: ≈ 175 000 BTC) and a factor below 2^20 (weights, vsizes and their sums; 4000) equals its uint64 value, so
+    under that bound `better` is the wrapped comparison the code performs. Outside the bound the model is NOT the code. -/
+theorem fee_products_nowrap (a b : T2S) (ha : a.fee < 2 ^ 44) (hb : b.fee < 2 ^ 44)
+    (wa : a.tx.weight < 2 ^ 20) (wb : b.tx.weight < 2 ^ 20) :
+    better a b = decide ((a.fee * b.tx.weight) % U64 > (b.fee * a.tx.weight) % U64) ∧
+    ∀ x y : Nat, x < 2 ^ 44 → y < 2 ^ 20 → (x * y) % U64 = x * y :=
+  ⟨better_eq_wrapped a b ha hb wa wb, fun x y hx hy => mul_nowrap x y hx hy⟩
+
 /-! non-vacuity -/
 
 def K0 : Keys := { bidx := id, uidx := fun a b => a * 1000 + b }
@@ -489,5 +570,43 @@ example : BlockValid u3 (genesis {} u3 0) [txA, txB] := by
     simp only [List.mem_cons, List.not_mem_nil, or_false] at ht
     rcases ht with rfl | rfl <;> simp [Conf, genesis, u3, txA, txB, AList.get?]
   · simp [txA, txB]
+
+
+/-! ### a history with blocks, an undo, expiry, eviction and a fee package (Proofs/C12Example.lean)
+  `opsX` = tip 5, submit D, E, F, J, block 6 [D] (pooled D mined, its child E stays), undo 6 (D back, E re-flagged), resort,
+  block 6 [F, J], tip 6, submit A, B, C (CPFP: fees 1 / 40 / 5), G, expire [D] (takes E along), BlockCommitInProgress,
+  evict [G] (succeeds), resort, submit H (incremental insertion). `ValidRun` needs `BlockValid` of both block bodies in the
+  states they are applied to (`validX`); the package [A, B, C] beats H in GetSortedMempoolRBF. -/
+section rich
+open GocoinV.Props.C12Ex
+
+example : PoolInv KX νX (run KX (genesis {} uX 0) opsX) :=
+  pool_inv KX WX id uX νX univX {} 0 opsX hWX validX aliveX
+example : SortOK KX (run KX (genesis {} uX 0) opsX) :=
+  sorted_list_inv KX WX id uX νX univX {} 0 opsX hWX validX aliveX cleanX wrapX
+example : RejInv KX (run KX (genesis {} uX 0) opsX) :=
+  reject_index_inv KX WX id uX νX univX {} 0 (by decide) opsX hWX validX aliveX
+example : BlockOK (fun o => ((run KX (genesis {} uX 0) opsX).utxo.get? o).isSome)
+    ((recsOf (run KX (genesis {} uX 0) opsX) (sortedRBF KX (run KX (genesis {} uX 0) opsX) pksX)).map (·.tx)) :=
+  template_from_pool KX WX id uX νX univX {} 0 opsX hWX validX aliveX pksX pkgsX nowrapX
+-- the package matters: with it the listing starts with A, B, C; without it H comes first
+example : sortedRBF KX (run KX (genesis {} uX 0) opsX) pksX = [7, 8, 9, 14] ∧
+    sortedRBF KX (run KX (genesis {} uX 0) opsX) [] = [14, 7, 8, 9] := by decide
+-- the block removed the pooled D, the undo put it back, the eviction was a real one
+example : ((sAt 5).pool.map (·.1)).contains 10 = true ∧ ((sAt 6).pool.map (·.1)).contains 10 = false ∧
+    ((sAt 7).pool.map (·.1)).contains 10 = true ∧ (evict KX (sAt 16) [13]).isSome = true := by decide
+-- resync edits on that state: a ring permutation / a list permutation are accepted, and keep the invariants
+example : (ringorder (run KX (genesis {} uX 0) opsX) []).isSome = true ∧
+    (setorder KX (run KX (genesis {} uX 0) opsX) [14, 7, 8, 9]).isSome = true := by decide
+-- the panic-branch theorem applies to that state (its first conjunct, for the pooled A)
+example : ∀ t, (run KX (genesis {} uX 0) opsX).pool.get? (KX.bidx t.tx.id) = some t →
+    (minedFlags KX (run KX (genesis {} uX 0) opsX) t).panicked = (run KX (genesis {} uX 0) opsX).panicked := by
+  have ha := admRun_genesis univX {} 0 opsX hWX validX
+  have f := run_full univX opsX _ (full_genesis univX {} 0) hWX ha
+  intro t ht
+  exact (panic_branches_unreachable KX WX id uX νX univX _).1 t f.chain (f.good aliveX) ht
+example : better { tx := tB, fee := 40, volume := 50, mem := [true], memCnt := 1, loc := false, final := false }
+    { tx := tA, fee := 1, volume := 100, mem := [], memCnt := 0, loc := false, final := false } = true := by decide
+end rich
 
 end GocoinV.Props.C12
